@@ -103,6 +103,31 @@ def split_top(s, sep=","):
     return parts
 
 
+def resolve_cxx_conditionals(text):
+    """`#if __cplusplus >= 2017xxL ... [#else ...] #endif` is resolved for C++17 (the library's language level in this
+    build): the guarded text is kept, the #else branch dropped; the directive lines become empty lines (line numbers stay).
+    Other conditionals are left alone (and would fail the residue gate if they reached a function body)."""
+    out, stack = [], []
+    for line in text.split("\n"):
+        st = line.strip()
+        if re.match(r"#\s*if\s+__cplusplus\s*>=\s*2017\d\dL\s*$", st):
+            stack.append(["cxx", True])
+            out.append("")
+        elif re.match(r"#\s*if", st):
+            stack.append(["other", True])
+            out.append(line)
+        elif re.match(r"#\s*else\b", st) and stack and stack[-1][0] == "cxx":
+            stack[-1][1] = False
+            out.append("")
+        elif re.match(r"#\s*endif\b", st) and stack:
+            kind = stack.pop()[0]
+            out.append("" if kind == "cxx" else line)
+        else:
+            keep = all(k != "cxx" or v for k, v in stack)
+            out.append(line if keep else "")
+    return "\n".join(out)
+
+
 class Rule:
     """A generic rewrite rule.  pat is a regex; repl a template or callable.
     repeat: apply until fixpoint (for nested constructs)."""
@@ -163,7 +188,7 @@ class Source:
             p = os.path.join(self.repo, rel)
             if not os.path.exists(p):
                 raise ExtractionError("source file missing: " + rel)
-            self.cache[rel] = strip_comments(open(p, encoding="utf-8", errors="replace").read())
+            self.cache[rel] = resolve_cxx_conditionals(strip_comments(open(p, encoding="utf-8", errors="replace").read()))
         return self.cache[rel]
 
     def find(self, rel, sig, nth=0, within=None):
